@@ -30,7 +30,17 @@ def string(rng, hostile=True, allow_empty=False):
     return "".join(rng.choice(STRINGS_HOSTILE + STRINGS_PLAIN) for _ in range(rng.randrange(2, 5)))
 
 
+# beyond what a double carries exactly, within the signed 64-bit integer type of STIX 2.0
+INTS_63 = [2 ** 53, 2 ** 53 + 1, 2 ** 62 + 1, 2 ** 63 - 1, -(2 ** 63) + 1, 9007199254740993, 1234567890123456789]
+
+
 def integer(rng, lo=None, hi=None, huge=False):
+    if huge == "63":
+        if lo is None and hi is None:
+            return rng.choice(INTS_54 + INTS_63) if rng.random() < 0.8 else rng.randrange(-10 ** 6, 10 ** 6)
+        if hi is None and rng.random() < 0.4:
+            return rng.choice([v for v in INTS_63 if lo is None or v >= lo])
+        huge = False
     if lo is None and hi is None:
         pool = INTS_54 + (INTS_HUGE if huge else [])
         return rng.choice(pool) if rng.random() < 0.7 else rng.randrange(-10 ** 6, 10 ** 6)
